@@ -75,8 +75,11 @@ def run_property(P, tier, seed, replay=None):
     info = {}
 
     # 1. translators (only the ones this property depends on) + proof gate
-    vlib.translate(getattr(P, "translators", None))
+    tproblems = vlib.translate(getattr(P, "translators", None))
     gate = vlib.coq_property_gate(pid, P.coq_dirs)
+    if tproblems:
+        gate["problems"] = tproblems + gate["problems"]
+        gate["discharged"] = 0
     log("[%s] coq gate: %d/%d theorems, %d lemmas, %.1fs%s" % (
         pid, gate["discharged"], gate["obligations"], gate["lemmas_qed"], gate["wall"],
         "" if not gate["problems"] else "  PROBLEMS: " + "; ".join(gate["problems"])[:500]))
@@ -90,7 +93,13 @@ def run_property(P, tier, seed, replay=None):
             gate["discharged"] = 0
 
     # 2. build model driver and harness against /repo's working tree
-    model_exe = vlib.ocaml_build(pid) if P.has_model_driver else None
+    model_exe = None
+    if P.has_model_driver:
+        try:
+            model_exe = vlib.ocaml_build(pid)
+        except vlib.CheckFailure as e:   # keep searching with the oracle on the implementation alone
+            gate["problems"].append("model driver could not be built: " + str(e)[-800:])
+            gate["discharged"] = 0
     exes = vlib.cargo_build(P.bins, P.profiles) if P.bins else {}
 
     # 3. cases
